@@ -9,6 +9,7 @@ import (
 	"time"
 
 	"verif.local/sim/kernel"
+	_ "verif.local/sim/props/c02"
 	_ "verif.local/sim/props/c10"
 	_ "verif.local/sim/props/c11"
 	_ "verif.local/sim/props/c12"
